@@ -130,6 +130,38 @@ def max_edge(V, E):
     return m
 
 
+def mesh_quality(V, E):
+    """(smallest interior dihedral angle between edge-adjacent faces, smallest triangle angle), in degrees."""
+    edge = {}
+    nrm = []
+    min_tri = 180.0
+    for j in range(E.shape[1]):
+        t = [int(E[i, j]) for i in range(3)]
+        p = [V[:, k] for k in t]
+        n = np.cross(p[1] - p[0], p[2] - p[0])
+        nrm.append(n / np.linalg.norm(n))
+        for a in range(3):
+            u, w = p[(a + 1) % 3] - p[a], p[(a + 2) % 3] - p[a]
+            cosang = float(np.dot(u, w) / (np.linalg.norm(u) * np.linalg.norm(w)))
+            min_tri = min(min_tri, math.degrees(math.acos(max(-1.0, min(1.0, cosang)))))
+            edge.setdefault((min(t[a], t[(a + 1) % 3]), max(t[a], t[(a + 1) % 3])), []).append((j, t[(a + 2) % 3]))
+    min_dih = 360.0
+    for (a, b), lst in edge.items():
+        if len(lst) != 2:
+            continue
+        (j1, o1), (j2, o2) = lst
+        cosang = float(np.dot(nrm[j1], nrm[j2]))
+        ang = math.degrees(math.acos(max(-1.0, min(1.0, cosang))))   # angle between outward normals
+        # convex edge: the opposite vertex of face 2 lies below the plane of face 1
+        convex = float(np.dot(nrm[j1], V[:, o2] - V[:, a])) <= 1e-14
+        min_dih = min(min_dih, 180.0 - ang if convex else 180.0 + ang)
+    return min_dih, min_tri
+
+
+MIN_DIHEDRAL = 62.0     # degrees; the statement's "bounded aspect ratio": sharper wedges slow the Duffy rules down
+MIN_TRI_ANGLE = 20.0    # (a stretched 4-element tetrahedron with a 50 degree wedge still has 2.7e-5 at singular order 10)
+
+
 def make_mesh(name, variant, rng):
     """variant: subset of {"perturb", "rigid", "relabel", "scale", "stretch"} -> dict describing the mesh."""
     V, E, fam, comp = base_mesh(name)
@@ -157,8 +189,23 @@ def make_mesh(name, variant, rng):
         V, comp = tag2[:3], np.rint(tag2[3]).astype(int)
         desc.append("relabel")
         assert V.shape[1] == nv
+    dih, tri = mesh_quality(V, E)
     return dict(name=name, family=fam, V=np.ascontiguousarray(V), E=np.ascontiguousarray(E.astype(np.uint32)),
-                comp=comp, desc=" ".join(desc), variant=sorted(variant))
+                comp=comp, desc=" ".join(desc), variant=sorted(variant), min_dihedral=dih, min_tri_angle=tri)
+
+
+def admissible_mesh(name, variant, rng):
+    """make_mesh, retried without the shape-changing steps until the quality thresholds hold."""
+    variant = set(variant)
+    for drop in (None, "stretch", "perturb"):
+        if drop is not None:
+            if drop not in variant:
+                continue
+            variant = variant - {drop}
+        mesh = make_mesh(name, variant, rng)
+        if mesh["min_dihedral"] >= MIN_DIHEDRAL and mesh["min_tri_angle"] >= MIN_TRI_ANGLE:
+            return mesh
+    return mesh
 
 
 def check_closed_outward(V, E):
@@ -359,7 +406,7 @@ def oracle(ctx, deep=False, cal=False, only=None):
             if done >= 1 and time.time() - t_start > budget:
                 res.notes.append(f"time budget {budget:.0f}s reached after {done}/{len(plan)} meshes")
                 break
-            mesh = make_mesh(name, variant, rng)
+            mesh = admissible_mesh(name, variant, rng)
             V, E = mesh["V"], mesh["E"]
             if not check_closed_outward(V, E):
                 res.notes.append(f"generator produced a mesh that is not closed/outward: {mesh['desc']} (skipped)")
@@ -415,7 +462,8 @@ def oracle(ctx, deep=False, cal=False, only=None):
                     key = (ident, LADDER[ri])
                     worst[key] = max(worst.get(key, 0.0), w)
                 if cal:
-                    ctx.log("cal", mesh["desc"], grid.number_of_elements, LADDER[ri],
+                    ctx.log("cal", mesh["desc"], "dih=%.0f tri=%.0f" % (mesh["min_dihedral"], mesh["min_tri_angle"]),
+                            grid.number_of_elements, LADDER[ri],
                             " ".join("%s=%.2e" % (i_, per_rung[i_][-1][0]) for i_ in these))
             # criteria
             for ident in these:
